@@ -11,7 +11,7 @@
 //verif:stub (*golang.org/x/net/http2/hpack.Encoder).WriteField => verifStubWriteField
 //verif:noreplay-stubbed
 //verif:assume the peer conforms to RFC 7540 6.9.1: a WINDOW_UPDATE never raises a window above 2^31-1, and SETTINGS_INITIAL_WINDOW_SIZE is at most 2^31-1
-//verif:outside the bytes produced by the HTTP/2 framer and the hpack encoder (third-party; the frames handed to them are recorded); more than 2 streams, 2 queued messages per stream and 2 (quick) / 3 (thorough) control items or write rounds, starting from a queue state built by the real handlers (1-2 messages on one stream, 0-1 on the other, optionally one frame already sent) with ARBITRARY connection window, initial window size and bytes in flight; message payloads above 40000 bytes; real sockets
+//verif:outside the bytes produced by the HTTP/2 framer and the hpack encoder (third-party; the frames handed to them are recorded); more than 2 streams, 2 queued messages per stream and 2 control items or write rounds, starting from a queue state built by the real handlers (1-2 messages on one stream, 0-1 on the other, optionally one frame already sent) with ARBITRARY connection window, initial window size and bytes in flight; message payloads above 40000 bytes; real sockets
 package transport
 
 import (
@@ -241,11 +241,8 @@ func verifNewMsg(id uint32) (*verifMsg, *dataFrame) {
 
 var verifSteps = 1
 
-//verif:thoroughonly verifH_C03_loopy5
-func verifH_C03_loopy5() {
-	verifSteps = 3
-	verifH_C03_loopy()
-}
+// (a deeper entry with 2 and 3 havoc steps was tried for the thorough tier and did not finish within 40 and 80 minutes;
+// both tiers therefore run the one-step inductive check below)
 
 func verifH_C03_loopy() {
 	verifWrites, verifHdrWrites, verifRSTs = nil, nil, nil
